@@ -89,6 +89,13 @@ fn main() {
             if common::VIOLATION_PRINTED.load(std::sync::atomic::Ordering::SeqCst) {
                 eprintln!("note: the check panicked after reporting a violation; the violation stands");
                 1
+            } else if let Some(p) = common::last_panic_any_thread().filter(|p| p.in_library() && args[1].starts_with('C')) {
+                // a panic raised INSIDE the library on a valid call of the explorer's own set-up
+                // (pool construction, a default run) escaped the per-step guards: that is a
+                // finding about the library, not a failure of the machinery
+                let ctx = Ctx::new(&args[1], tier);
+                ctx.violation(&format!("panic|{}", p.site_key()), &format!("the library panicked outside a guarded step (explorer set-up): {} at {}:{}", p.message, p.file, p.line), serde_json::json!({"kind":"escaped_panic","message":p.message,"file":p.file,"line":p.line}));
+                ctx.finish(serde_json::json!({"exhaustive": false, "bounds": "aborted by a library panic during set-up"}), vec!["the exploration did not run to completion".into()])
             } else {
                 eprintln!("machinery error: the check itself panicked");
                 2
